@@ -219,7 +219,7 @@ MANIFESTS = [
 def e2e_cases(ctx, rng, count):
     out = []
     for i in range(count):
-        stream = ["bbb", "tears", "syn1", "syn2", "syn3", "syn4"][i % 6]
+        stream = ["bbb", "tears", "syn1", "syn2", "syn3", "syn4", "syn5"][i % 7]
         man, q = MANIFESTS[(i // 5) % len(MANIFESTS)]
         opts = [q] if q else []
         start = rng.choice(["epoch", "year", "month", "today", "explicit"])
@@ -227,7 +227,17 @@ def e2e_cases(ctx, rng, count):
         now = datetime.datetime(year, rng.randrange(1, 13), rng.randrange(1, 28), rng.randrange(24),
                                 rng.randrange(60), rng.randrange(60), rng.choice([0, 0, 500000, rng.randrange(10 ** 6)]),
                                 tzinfo=datetime.timezone.utc)
-        if start == "explicit":
+        if stream == "syn5":
+            # decode times crossing 2^31 / 2^32 / 2^33 ticks of the 1024 Hz video track (loop = 2^13 ticks)
+            P = [2 ** 32, 2 ** 31, 2 ** 33, 2 ** 32][(i // 7) % 4]
+            ast_ = datetime.datetime(rng.choice([2021, 2024]), rng.randrange(1, 13), rng.randrange(1, 28),
+                                     rng.randrange(24), rng.randrange(60), rng.randrange(60), tzinfo=datetime.timezone.utc)
+            now = ast_ + datetime.timedelta(seconds=P // 1024) + datetime.timedelta(seconds=rng.choice([1, 3, 7, 12, 19]),
+                                                                                   microseconds=rng.choice([0, 250000, 999999]))
+            start = "pow2"
+        if start == "pow2":
+            opts.append("start=" + ast_.strftime("%Y-%m-%dT%H:%M:%SZ"))
+        elif start == "explicit":
             age = rng.choice([rng.randrange(70, 4000), rng.randrange(4000, 10 ** 7)])
             st = (now - datetime.timedelta(seconds=age)).replace(microsecond=0)
             if rng.random() < .35:   # explicit start with a non-UTC offset ('+' URL-encoded)
@@ -397,7 +407,7 @@ def search(ctx, disagreements):
     import types
     c2 = types.SimpleNamespace(tier="thorough", thorough=True, seed=ctx.seed + 7919,
                                rng=lambda name: common.rng_for(ctx.seed + 7919, name),
-                               scale=lambda q, t: t)
+                               scale=lambda q, t: t if ctx.thorough else max(q, t // 5))
     for fn in (ch_segidx, ch_timeline, ch_segserve):
         ch = fn(c2)
         open_f = [f for f in common.load_ledger() if f.get("property") == PROP and f.get("status") == "open"]
